@@ -121,6 +121,16 @@ def configs(tier):
                 nblocks = 2 * k + 1 + m + extra
                 if k + m * (k + 1) <= 3 * nblocks and (m > 0 or extra == 0):
                     out.append(dict(cascade=(k, m, extra)))
+    # inverted-output shortcuts of a COMBINATIONAL block inside long chains: src -> x -> '_not_x'
+    # -> u1 .. uN, some of the u's tapping '_not_x' a second time; paths within 3 x blocks
+    for n in (6, 12, 20):
+        cand = list(range(2, n, 2 if n < 20 else 3))
+        for k in range(0, 5):
+            for taps in itertools.combinations(cand, k):
+                nblocks = n + 3
+                paths = 2 + sum(1 + sum(1 for t in taps if t <= i) for i in range(1, n + 1))
+                if paths <= 3 * nblocks:
+                    out.append(dict(notchain=(n, taps)))
     return out
 
 
@@ -339,10 +349,83 @@ def run_cascade(cfg, acc):
     return acc
 
 
+def run_notchain(cfg, acc):
+    n, taps = cfg['notchain']
+    for order, first in itertools.product(('forward', 'reverse', 'odd-even', 'inverter-first'),
+                                          (False, True)):
+        viol = []
+        with Sim() as sim:
+            # 'inverter-first': the automatically created inverter gets the lowest rank, the chain
+            # follows from its far end, 'x' comes last
+            nets.install_rank_hash(auto_base=0 if order == 'inverter-first' else 64)
+            src = edzed.Input('src', initdef=first)
+            x = edzed.FuncBlock('x', func=lambda a: bool(a)).connect(src)
+            us = []
+            # arithmetic functions: every re-evaluation with a changed input changes the output,
+            # so the number of evaluations can really reach the number of paths
+            for i in range(1, n + 1):
+                if i == 1:
+                    us.append(edzed.FuncBlock('u1', func=lambda tap: int(bool(tap))).connect(tap='_not_x'))
+                elif i in taps:
+                    us.append(edzed.FuncBlock(f'u{i}', func=lambda prev, tap: 2 * prev + int(bool(tap))
+                                              ).connect(prev=f'u{i - 1}', tap='_not_x'))
+                else:
+                    us.append(edzed.FuncBlock(f'u{i}', func=lambda prev: 2 * prev).connect(prev=f'u{i - 1}'))
+            blocks = [x] + us
+            ranks = list(range(len(blocks)))
+            if order == 'reverse':
+                ranks.reverse()
+            elif order == 'odd-even':
+                ranks = ranks[1::2] + ranks[0::2]
+            elif order == 'inverter-first':
+                ranks = [len(blocks) + 2] + [len(blocks) + 1 - i for i in range(1, len(blocks))]
+            nets.set_ranks(blocks, ranks)
+
+            async def driver():
+                task = asyncio.create_task(sim.circuit.run_forever())
+                try:
+                    await sim.circuit.wait_init()
+                except edzed.EdzedInvalidState:
+                    pass
+                for val in (first, not first, first):
+                    if not task.done() and src.output != val:
+                        edzed.ExtEvent(src).send(val)
+                    await sim.loop.idle()
+                    if task.done():
+                        viol.append(('stable-network-aborted',
+                                     f"chain of {n} blocks behind '_not_x' (taps {taps}), order {order}, "
+                                     f"src={val}: ended with {sim.circuit.error!r}"))
+                        break
+                    # reference: u_i = not x, xor-ed with (not x) at every tap
+                    t = int(not val)
+                    cur = 0
+                    exp = []
+                    for i in range(1, n + 1):
+                        cur = t if i == 1 else 2 * cur + (t if i in taps else 0)
+                        exp.append(cur)
+                    got = [u.output for u in us]
+                    if got != exp:
+                        viol.append(('idle-but-inconsistent',
+                                     f"chain behind '_not_x' (n={n}, taps {taps}), src={val}: {got}, "
+                                     f"expected {exp}"))
+                        break
+                await stop(sim.circuit)
+                task.exception() if task.done() and not task.cancelled() else None
+            sim.run(driver())
+        acc.execs += 1
+        acc.outcome(('notchain', n, taps, order, first, bool(viol)))
+        acc.state(('notchain', n, taps))
+        for sig, msg in viol:
+            acc.violation(f"C10:{sig}", msg, cfg=cfg)
+    return acc
+
+
 def run_config(cfg):
     acc = Acc()
     if 'cascade' in cfg:
         return run_cascade(cfg, acc)
+    if 'notchain' in cfg:
+        return run_notchain(cfg, acc)
     k, m = cfg['k'], len(cfg['gates'])
     vectors = list(itertools.product((False, True), repeat=k))
     perms = list(itertools.permutations(range(m)))
